@@ -184,6 +184,7 @@ type Scenario struct {
 	DispatchMaint       time.Duration `json:"dispatch_maint,omitempty"`
 	PerAlertNameLimit   int           `json:"per_alert_name_limit,omitempty"`
 	DispatchStartDelay  time.Duration `json:"dispatch_start_delay,omitempty"`
+	ExtraSlack          time.Duration `json:"extra_slack,omitempty"` // added to every delivery bound (cluster wait, settle, detection lag)
 }
 
 // Epoch is a period during which one configuration (and one dispatcher) was in force.
@@ -225,7 +226,11 @@ type Result struct {
 	Epochs   []*Epoch
 	Probes   []Probe
 	SlotIDs  map[int][]string // silence ids a slot has held
-	Err      string
+	// InstanceKnows (cluster runs only) says whether the instance had been sent the alert since its last
+	// (re)start by instant at. A notification from an instance that did not know an alert is not
+	// evidence that the receiver's picture of that alert changed.
+	InstanceKnows func(instance, alertKey string, at time.Time) bool
+	Err           string
 }
 
 // Attempts returns the recorded attempts.
@@ -241,7 +246,8 @@ func (r *Result) EpochAt(t time.Time) *Epoch {
 	return nil
 }
 
-func newEpoch(c *Config, from time.Time) (*Epoch, error) {
+// NewEpoch builds the reference view of one configuration epoch.
+func NewEpoch(c *Config, from time.Time) (*Epoch, error) {
 	e := &Epoch{From: from, Config: c, Root: model.Resolve(c.Route), PathByRouteID: map[string]string{}, NodeByPath: map[string]*model.Node{}, RouteKeyByPath: map[string]string{}}
 	e.Root.Walk(func(n *model.Node) { e.NodeByPath[n.Path] = n })
 	cfg, err := config.Load(c.YAML())
@@ -343,7 +349,7 @@ func RunWith(s *Scenario, dir string, custom sim.Script, beforeStop func(*sim.In
 			DispatchMaintenanceInterval: s.DispatchMaint, PerAlertNameLimit: s.PerAlertNameLimit, DispatchStartDelay: s.DispatchStartDelay}
 	}
 	cur := s.Config
-	ep, err := newEpoch(cur, start)
+	ep, err := NewEpoch(cur, start)
 	if err != nil {
 		res.Err = err.Error()
 		return res
@@ -452,7 +458,7 @@ func RunWith(s *Scenario, dir string, custom sim.Script, beforeStop func(*sim.In
 				res.Err = "reload of a valid config failed: " + err.Error()
 				return res
 			}
-			ne, err := newEpoch(op.Config, now)
+			ne, err := NewEpoch(op.Config, now)
 			if err != nil {
 				res.Err = err.Error()
 				return res
@@ -473,7 +479,7 @@ func RunWith(s *Scenario, dir string, custom sim.Script, beforeStop func(*sim.In
 				return res
 			}
 			in = ni
-			ne, _ := newEpoch(cur, now)
+			ne, _ := NewEpoch(cur, now)
 			ne.Restart, ne.KeptData = true, op.Keep
 			res.Epochs[len(res.Epochs)-1].To = now
 			ne.To = far
